@@ -1,10 +1,10 @@
-\* C17 quick: the 72 cells of the matrix + every interleaving of <= 2 connections, <= 2 reloads, <= 2 uses
+\* C17 quick: the 72 cells of the matrix + every interleaving of <= 2 connections, <= 2 reloads, <= 2 uses, with and without mutual TLS
 SPECIFICATION Spec
 CONSTANTS
   Mode = "swap"
   MaxConn = 2
   MaxReload = 2
   MaxUse = 2
-  Mtls = {FALSE}
+  Mtls = {FALSE, TRUE}
 INVARIANTS TypeOK Undisturbed Fresh Emit
 CHECK_DEADLOCK FALSE
